@@ -155,7 +155,7 @@ Proof. vm_compute. repeat split; reflexivity. Qed.
    (its dependency) is then NOT deleted (dependency filter: the dependent is not reconciled), both stay
    tracked and the inventory object is not deleted *)
 Example C05_nonvacuous_finalizer :
-  let univ := [mkU KNs None None; mkU KPlain None None; mkUF KPlain (Some 0) None true] in
+  let univ := [mkU KNs None None; mkU KPlain None None; mkUF KPlain (Some 0) None true true] in
   let od := mkO true true PAdoptAll DNone VSkipInvalid false true true false PropBackground false in
   let waits := [mkW [mkS 2 STerminating true 6%N 2%Z] WTimeout; mkW [mkS 0 SNotFound false 0%N 0%Z] WTimeout] in
   let sc := mkSc univ None [] od (mkE [] waits CNever None) in
